@@ -7,7 +7,8 @@ HARNESS = {"source": "x_oom.c", "leak_clean": True}
 ENV = {"VERIF_LEAKCHECK": "1"}
 RULE = ("phase 1: every operation of harness/x_oom.c x allocator class {lib, sq, icu} with k=0 (count allocations); phase 2: "
         "exhaustive - for every (operation, class) each k = 1..n fails the k-th allocation of that class made during the call; "
-        "non-trivial = the fault fired; oracle: result is CIF_MEMORY_ERROR/CIF_ERROR, managed CIF and caller-owned objects dump "
+        "non-trivial = the fault fired; histogram labels lib:<operation>:<proved|leaf|observed> = census of the library-class fault sites by "
+        "whether the function containing the failing request has a proved clean-up ladder (LADDER_FUNCS); oracle: result is CIF_MEMORY_ERROR/CIF_ERROR, managed CIF and caller-owned objects dump "
         "unchanged, the repeated call succeeds, no sanitizer report, nothing leaked")
 CLASSES = ["lib", "sq", "icu"]
 MAXK = {"quick": 40, "thorough": 100000}      # quick: the first 40 (library class: 160) sites per (operation, class); thorough: all
@@ -45,6 +46,36 @@ def expand(reqs, impl, tier):
     return out
 
 
+# ---- which allocation sites lie inside a function whose clean-up ladder is modelled and PROVED balanced (family `ladder`,
+# Props/C17*.lean)?  The site is the innermost library function that contains the failing request (uthash's requests are
+# macro expansions inside the library function).  Three groups:
+#   proved   - the function's own allocation-failure paths are a ladder with a `C17_*_balanced` theorem
+#   leaf     - the function makes that one request and returns NULL / an error without any clean-up of its own; what
+#              happens next is decided by its caller (which may or may not be a proved ladder)
+#   observed - everything else: only this fault enumeration executes the failure path
+LADDER_FUNCS = {
+    "value.c:cif_value_clone": "C17_clone_any_balanced", "value.c:cif_value_clone_numb": "C17_clone_any_balanced",
+    "value.c:cif_value_clone_list": "C17_clone_any_balanced", "value.c:cif_value_clone_table": "C17_clone_any_balanced",
+    "value.c:cif_value_deserialize": "C17_deser_any_balanced", "value.c:cif_list_deserialize": "C17_deser_any_balanced",
+    "value.c:cif_table_deserialize": "C17_deser_any_balanced", "value.c:cif_value_parse_numb": "C17_deser_any_balanced",
+    "value.c:cif_value_insert_element_at": "C17_insert_balanced", "value.c:cif_value_set_element_at": "C17_set_element_balanced",
+    "value.c:cif_value_copy_char": "C17_copy_char_balanced",
+    "packet.c:cif_packet_create": "C17_packet_create_balanced", "packet.c:cif_packet_create_norm": "C17_packet_create_balanced / C17_next_packet_balanced",
+    "loop.c:dup_ustrings": "C17_dup_ustrings_balanced", "loop.c:cif_loop_get_names_internal": "C17_get_names_balanced / C17_get_names_norm_balanced",
+    "loop.c:cif_loop_get_packets": "C17_get_packets_balanced", "pktitr.c:cif_pktitr_next_packet": "C17_next_packet_balanced",
+    "map.c:cif_map_set_item": "C17_map_set_balanced", "map.c:cif_map_retrieve_item": "C17_map_remove_balanced",
+    "parser.c:parse_loop_header": "C17_loop_header_balanced",
+    "utils.c:cif_unicode_normalize": "normalize_spec (ASCII: one request per call)", "utils.c:cif_fold_case": "normalize_spec (ASCII)",
+    "utils.c:cif_normalize": "normalize_spec (ASCII)",
+    "container.c:cif_container_get_all_loops": "C17_get_all_loops_balanced",
+}
+LEAF_FUNCS = {"utils.c:cif_u_strdup", "value.c:cif_value_create", "value.c:cif_buf_create"}
+
+
+def site_group(site):
+    return "proved" if site in LADDER_FUNCS else "leaf" if site in LEAF_FUNCS else "observed"
+
+
 def nontrivial(req, impl):
     return _field(impl, "fired") == "1" or "@" in impl
 
@@ -55,6 +86,9 @@ def classify(req, impl):
         return "ops"
     if t[3] == "0":
         return "count:" + t[2]
+    if t[2] == "lib" and _field(impl, "fired") == "1":
+        # census: per operation, is the failing library request inside a function with a proved ladder?
+        return "lib:%s:%s" % (t[1], site_group(_field(impl, "site")))
     return "fault:%s:%s" % (t[2], "fired" if _field(impl, "fired") == "1" or "@" in impl else "notreached")
 
 
